@@ -22,6 +22,7 @@ type WCfg struct {
 	Fifo     bool  // expected ordering of the queue (what the constructor's name / documentation promises)
 	MaxB     int64 // expected backlog bound
 	RawB     int64 // backlog size handed to the constructor when it differs from the expected bound (<= 0 asks for the default 100); 0 = MaxB
+	RawTO    int64 // timeout handed to the constructor when it differs from the expected one (pools: a negative timeout means "the default"); 0 = Timeout
 	Timeout  int64 // ns: queue backlog timeout / blocking poll period (0 none)
 	Deadline int64 // ns after the start of the scenario (deadline limiter)
 	Evict    bool
@@ -86,6 +87,9 @@ func NewWSUT(c WCfg) (*WSUT, error) {
 		return nil, err
 	}
 	to := time.Duration(c.Timeout)
+	if c.RawTO != 0 {
+		to = time.Duration(c.RawTO)
+	}
 	w.Absdl = w.Now0 + c.Deadline
 	ord := limiter.OrderingLIFO
 	if c.Fifo {
@@ -192,7 +196,13 @@ func (w *WSUT) Arrive(cancelled bool) int {
 		cancel = func() { cancel2(); inner() }
 	}
 	if cancelled {
-		cancel()
+		if len(w.Callers)%2 == 0 {
+			// a context that is done because its own deadline has passed (DeadlineExceeded) is as done as a cancelled one
+			cancel()
+			ctx, cancel = context.WithDeadline(context.Background(), time.Now().Add(-time.Second))
+		} else {
+			cancel()
+		}
 	}
 	c := &wCaller{ctx: ctx, cancel: cancel, arrival: time.Now().UnixNano(), t: time.Now().UnixNano(), ret: make(chan struct{})}
 	w.Callers = append(w.Callers, c)
